@@ -25,7 +25,9 @@ REGISTRY = {
     "C15": ("apiharness", {"asan": ["h_rational"]}),
     "C16": ("apiharness", {"asan": ["h_numparse"]}),
     "C18": ("procmon", {"asan": []}),
+    "C19": ("rejected", {"rel": []}),
     "C20": ("procmon", {"rel": []}),
+    "C21": ("scopes", {"rel": []}),
     "C23": ("procmon", {"rel": []}),
     "C26": ("trace", {"rel": []}),
     "C28": ("apiharness", {"rel": ["h_terms"]}),
